@@ -66,6 +66,12 @@ func (endpoint *PairVerify) ServeHTTP(response http.ResponseWriter, request *htt
 		b := out.GetByte(pair.TagSequence)
 		switch pair.VerifyStepType(b) {
 		case pair.VerifyStepFinishResponse:
+			if len(out.GetBytes(pair.TagErrCode)) > 0 {
+				// Verification failed: the response contains an error code and
+				// the connection must not be switched to a secure session.
+				break
+			}
+
 			if secSession, err = crypto.NewSecureSessionFromSharedKey(ctlr.SharedKey()); err == nil {
 				log.Debug.Println("Setup secure session")
 				session.SetCryptographer(secSession)
